@@ -25,7 +25,7 @@ type c10Doc struct {
 func c10Strings() []scalar {
 	return []scalar{
 		{"backtick", "a`b"}, {"backticks", "``` code ```"}, {"dquote", `say "hi"`}, {"squote", "it's"}, {"backslash", `a\b\n`}, {"newline", "l1\nl2"}, {"crlf", "l1\r\nl2"},
-		{"tab", "a\tb"}, {"ctrl", "a\u0001b"}, {"accent", "café"}, {"cjk", "日本語"}, {"emoji", "😀"}, {"u2028", "a b"}, {"html", "<b>&amp;</b>"}, {"tmpl", "{{ .Name }}"},
+		{"tab", "a\tb"}, {"ctrl", "a\u0001b"}, {"accent", "café"}, {"cjk", "日本語"}, {"emoji", "😀"}, {"u2028", "a\u2028b"}, {"html", "<b>&amp;</b>"}, {"tmpl", "{{ .Name }}"},
 		{"percent", "100%s %d"}, {"dollar", "${x} $1"}, {"backtick+plus", "` + \"x\" + `"}, {"nul-escape", `\u0000`}, {"comment", "*/ x /*"},
 	}
 }
